@@ -147,6 +147,11 @@ func ruleC07Count(c *Ctx) {
 				switch x := v.(type) {
 				case *ssa.MakeInterface:
 					return true
+				case *ssa.UnOp:
+					// a package-level sentinel error
+					if _, isGlobal := x.X.(*ssa.Global); isGlobal && x.Op == token.MUL {
+						return true
+					}
 				case *ssa.Call:
 					if q := calleeQ(&x.Call); q == "errors.New" || q == "fmt.Errorf" {
 						return true
